@@ -495,6 +495,8 @@ class Gen:
             self.close_label()
             if twin and not saw_ens:
                 self._insert_false_from(first)
+            if not twin:
+                fn['body_start'] = len(self.lines) + 1
             for t, o in body_lines:
                 if o[0] == 'repo':
                     self.close_label()
@@ -567,10 +569,15 @@ class Gen:
                     body_lines.append((t, ('tmpl', path, ln)))
         body_lines.append((pending, ('repo', kv['file'], cur_line)))
         # hints
+        lost_ghosts = set()
         for where, rx, hl, hln, hfor in hints:
             cands = [k for k, (t, o) in enumerate(body_lines) if o[0] == 'repo' and re.search(rx, t)]
-            if len(cands) != 1:
+            # a hint that uses a ghost variable introduced by a hint that was dropped goes with it
+            uses_lost = hfor and lost_ghosts and any(re.search(r'\b' + re.escape(g) + r'\b', t) for g in lost_ghosts for t, _ln in hl)
+            if len(cands) != 1 or uses_lost:
                 if hfor:
+                    for t, _ln in hl:
+                        lost_ghosts.update(re.findall(r'\blet ghost (?:mut )?(\w+)', t))
                     # the hint only supports the named clauses: go on without it; a failure of one of those clauses is then
                     # reported as undecided (the proof aid is gone), every other clause of the function is still decided
                     self.dropped_hints.append({'fn': fid, 'anchor': rx, 'for': hfor.split(',')})
